@@ -32,8 +32,8 @@ ENCODED = [
     "tdgl.solution.solution:Solution.to_hdf5",
 ]
 BOUNDS = {
-    "quick": dict(max_steps=2, crash_steps="0..2", stages=["Thermalizing", "Simulating"], preexisting=["none", "out.h5", "out.h5+out-1.h5"]),
-    "thorough": dict(max_steps=5, crash_steps="0..5", stages=["Thermalizing", "Simulating"], preexisting=["none", "out.h5", "out.h5+out-1.h5", "out.h5+out-1.h5+out-2.h5"]),
+    "quick": dict(max_steps=2, crash_steps="0..2", stages=["Thermalizing", "Simulating"], preexisting=["none", "out.h5", "out.h5+out-1.h5", "out.h5+out.h5.tmp", "out.h5.tmp"]),
+    "thorough": dict(max_steps=5, crash_steps="0..5", stages=["Thermalizing", "Simulating"], preexisting=["none", "out.h5", "out.h5+out-1.h5", "out.h5+out.h5.tmp", "out.h5.tmp", "out.h5+out-1.h5+out-2.h5", "out.h5+out.h5.tmp+out-1.h5.tmp"]),
 }
 ASSUMPTIONS = [
     "HDF5 / file system replaced by an in-memory model (exclusive create raises on existing names, handles tracked, every mutation logged)",
@@ -111,7 +111,7 @@ class SymFS:
         return p in self.fs.files and repr(fakeh5.tree_repr(self.fs.files[p])) == self.snap[p] and not touched
 
     def created(self):
-        return [e[1] for e in self.fs.log if e[0] == "create" and not e[1].endswith(".tmp")]
+        return sorted(p for p in self.fs.files if p not in self.pre and not p.endswith(".tmp"))
 
     def open_read(self, path):
         return self.h5.open(path, "r")
@@ -154,7 +154,7 @@ class RealFS:
     def tmp_files(self):
         import os
 
-        return [p for p in os.listdir(self.work) if p.endswith(".tmp")]
+        return [os.path.join(self.work, p) for p in os.listdir(self.work) if p.endswith(".tmp")]
 
     def temp_dirs(self):
         import os
@@ -261,15 +261,19 @@ def _body(H, case, view, R):
     tag = f"site={site} kind={kind} crash={crash} stage={stage} pause={pause} answer={answer}"
     # ---- every handle closed, nothing temporary left ----------------------------------------------
     H.prove(f"[{tag}] every HDF5 handle is closed", view.open_handles() == 0)
-    H.prove(f"[{tag}] no .tmp file remains", not view.tmp_files())
+    H.prove(f"[{tag}] no .tmp file remains (other than files that existed before the run)", not [p for p in view.tmp_files() if p not in pre_names])
     H.prove(f"[{tag}] no temporary directory remains", not view.temp_dirs())
     # ---- pre-existing files untouched, fresh name ------------------------------------------------
     for p in pre_names:
         H.prove(f"[{tag}] pre-existing {os.path.basename(p)} is never opened for writing or modified", view.untouched(p))
     created = view.created()
     if case.explicit:
-        H.prove(f"[{tag}] exactly one fresh output file is created", len(created) == 1 and created[0] not in pre_names)
-        expected_name = os.path.join(view.work, "out.h5" if not pre_names else f"out-{len(pre_names)}.h5")
+        H.prove(f"[{tag}] exactly one new file exists after the run", len(created) == 1 and created[0] not in pre_names)
+        serial = 0  # first name for which neither the file nor its .tmp companion existed before the run
+        taken = {os.path.basename(p) for p in pre_names}
+        while (f"out-{serial}.h5" if serial else "out.h5") in taken or (f"out-{serial}.h5.tmp" if serial else "out.h5.tmp") in taken:
+            serial += 1
+        expected_name = os.path.join(view.work, f"out-{serial}.h5" if serial else "out.h5")
         H.prove(f"[{tag}] the fresh name is the first free serial name", created == [expected_name])
     # ---- what the run reports -----------------------------------------------------------------------
     fired = st["fired"]
